@@ -82,6 +82,8 @@ def check_consts(name, consts, expanded):
         gmin, gmax = opt_num(b.get("MIN")), opt_num(b.get("MAX"))
         emin = e["min"] if e["hasMin"] else None
         emax = e["max"] if e["hasMax"] else None
+        if emax == -1:
+            emax = I64MAX   # SIZE(n..MAX): the generator writes MAX as i64::MAX
         # the Rust model has no open-ended range: MAX is carried as i64::MAX (and MIN as i64::MIN); same set of 64-bit values
         if emax is None and gmax == I64MAX and e["kind"] == "numbers":
             gmax = None
